@@ -185,9 +185,9 @@ Definition mark_fitted (o : hobj) : hobj :=
 Definition thread_class (f : family) (env : Z) : Z :=
   match f with CalTrack => env | _ => 0 end.
 (* the part of the process environment the CalTRACK hourly model consults, as coded: the BLAS pool size (statsmodels WLS ->
-   LAPACK, known finding C03-K1) AND the hash salt of the interpreter (CalTRACKSegmentModel.predict orders the columns of
-   its dot product by  list(set(parameters.keys()).intersection(...)), a set of strings: known finding C03-K2) *)
-Definition ct_env (s : gstate) : Z := g_threads s * 4611686018427387904 + g_salt s.
+   LAPACK, known finding C03-K1).  Until /repo 15304f59 it also read the hash salt of the interpreter
+   (CalTRACKSegmentModel.predict ordered the columns of its dot product by a set of strings; found by this check as C03-K2) *)
+Definition ct_env (s : gstate) : Z := g_threads s.
 
 Definition step (s : gstate) (o : op) : gstate * res :=
   match o with
